@@ -92,7 +92,7 @@ pub fn profile_for(prop: &str) -> Profile {
             p.p_same_block_burst = (45, 100);
         }
         "C17" => {
-            p.w = [70, 6, 2, 12, 6, 2, 0];
+            p.w = [62, 14, 2, 14, 6, 2, 0];
             p.p_fault = (0, 100);
         }
         "C18" => {
@@ -262,6 +262,7 @@ pub fn gen_world(rng: &mut Rng, prop: &str) -> WorldCfg {
             decimals: vdec,
             oracle_price,
             twap_interval: if rng.chance(1, 3) { Some(*rng.pick(&[60u64, 900, 3600, 86400, 604800])) } else { None },
+            init_if: !(prop == "C09" && rng.chance(3, 10)),
         });
     }
     let trader_balance = (qmax / 2).max(5000 * d);
@@ -308,7 +309,7 @@ pub fn gen_world(rng: &mut Rng, prop: &str) -> WorldCfg {
     }
 }
 
-const DTS: [u64; 14] = [1, 5, 15, 15, 60, 899, 900, 901, 1800, 3599, 3600, 3601, 86400, 604800];
+const DTS: [u64; 16] = [0, 0, 1, 5, 15, 15, 60, 899, 900, 901, 1800, 3599, 3600, 3601, 86400, 604800];
 
 pub struct Gen {
     pub profile: Profile,
@@ -341,7 +342,7 @@ impl Gen {
             self.burst_left = rng.range(1, 6) as u32;
         }
         if self.profile.long_busy {
-            return Some((1, *rng.pick(&[1u64, 5, 15, 15, 60])));
+            return Some((1, *rng.pick(&[0u64, 1, 5, 15, 15, 60])));
         }
         if rng.chance(self.profile.p_clock.0, self.profile.p_clock.1) {
             let dt = *rng.pick(&DTS);
@@ -600,7 +601,22 @@ impl Gen {
             2 => World::trader(rng.below(r.w.cfg.n_traders as u64) as usize),
             _ => "liquidator".into(),
         };
-        Step::new(&actor, Op::Liquidate { vamm: v, trader, limit: 0 })
+        let mut limit = 0;
+        if self.profile.prop == "C17" && rng.chance(1, 2) {
+            if let Some(p) = r.obs.position(v, &trader).filter(|p| p.size != 0) {
+                let vo = &r.obs.vamms[v];
+                if let Some(qv) = curve_output(p.dir, p.size.unsigned_abs(), vo.q, vo.b, vo.decimals.max(1)) {
+                    limit = match rng.below(5) {
+                        0 => qv,
+                        1 => qv + 1,
+                        2 => qv.saturating_sub(1).max(1),
+                        3 => qv.saturating_mul(2),
+                        _ => (qv / 2).max(1),
+                    };
+                }
+            }
+        }
+        Step::new(&actor, Op::Liquidate { vamm: v, trader, limit })
     }
 
     fn gen_oracle(&mut self, r: &mut Runner, rng: &mut Rng) -> Step {
